@@ -32,7 +32,7 @@ RULE = (
 ASSUMPTIONS = ["CPython 3.12 inspect.signature / ast.parse are the reference", "variadic parameters: Griffe's documented pseudo-defaults '()' / '{}' are compared by name and kind only"]
 MANIFEST = {
     "category": "exploration",
-    "text": "Bounded exhaustive enumeration of parameter lists (each kind count <= 2 quick / <= 3 thorough, every default placement) in 7 definition contexts and as lambdas, of overload sequences and of property getter/setter/deleter sequences (length <= 4); every generated source is visited by the real visitor and compared with inspect.signature / the property object of the executed source; stored lambdas must also render back to the lambda that was written; family DI puts the same question to the runtime inspector for defaults whose repr is not a literal. Two contexts put the definition in a module with postponed evaluation of annotations (string literals in annotations are values there).",
+    "text": "Bounded exhaustive enumeration of parameter lists (each kind count <= 2 quick / <= 3 thorough, every default placement) in 7 definition contexts and as lambdas, of overload sequences and of property getter/setter/deleter sequences (length <= 4); every generated source is visited by the real visitor and compared with inspect.signature / the property object of the executed source; stored lambdas must also render back to the lambda that was written; family DI puts the same question to the runtime inspector for defaults whose repr is not a literal. Two contexts put the definition in a module with postponed evaluation of annotations (string literals in annotations are values there). Annotations, returns and defaults include three operands of one operator and lambdas whose own parameters default to empty displays; the quick tier also has every parameter list with three parameters of a kind (module and method context).",
     "note": "CPython is the oracle; identifiers and literal values are fixed representatives.",
     "technique": "model checking by exhaustive small-scope enumeration of definitions on the real visitor, CPython inspect as oracle",
 }
